@@ -38,3 +38,13 @@ pub fn alone(a: &Args) {
     }
     println!("names: {} distinct: {}", names.len(), names.iter().collect::<std::collections::BTreeSet<_>>().len());
 }
+
+pub fn userword(a: &crate::util::Args) {
+    let w = a.req("word").to_string();
+    let text = a.req("text").to_string();
+    let mut l = harper_wasm::Linter::new(harper_wasm::Dialect::American);
+    let before: Vec<String> = l.lint(text.clone(), harper_wasm::Language::Plain).iter().map(|x| format!("{}..{} {}", x.span().start, x.span().end, x.message())).collect();
+    l.import_words(vec![w.clone()]);
+    let after: Vec<String> = l.lint(text.clone(), harper_wasm::Language::Plain).iter().map(|x| format!("{}..{} {}", x.span().start, x.span().end, x.message())).collect();
+    println!("before: {before:?}\nafter import of {w:?}: {after:?}");
+}
